@@ -127,7 +127,7 @@ func (d *UpGrid) Cases(tier string) []GridCase {
 		"balance":   {"unprefixed", "prefixed", "mixed", "empty", "unprefixed-every-first-byte"},
 		"container": {"unprefixed", "prefixed", "mixed", "unprefixed-every-first-byte"},
 		"netmap":    {"ring10", "ring12", "ring3"},
-		"nns":       {"names"},
+		"nns":       {"names", "names-two-tlds"},
 	}
 	for _, c := range c16Targets {
 		dv := data[c]
@@ -468,6 +468,55 @@ func (d *UpGrid) legacy(w *World, c upCase, put func(k, v []byte)) []upExpect {
 		}
 		rec := func(name string, typ int64, data string, id int64) []byte {
 			return ser(stackitem.NewStruct([]stackitem.Item{stackitem.Make(name), stackitem.Make(typ), stackitem.Make(data), stackitem.Make(id)}))
+		}
+		if dataVar == "names-two-tlds" {
+			// two TLDs; the owner of the first also owns a second-level name (its balance must go 2 -> 1 and tokensOf
+			// must keep that name); names whose keys sort on both sides of the TLD keys
+			t1, t2, u := util.Uint160{0x88, 2}, util.Uint160{0x99, 3}, util.Uint160{0x77, 1}
+			owned := c.V < 18000
+			put([]byte{0x00}, leInt(2))
+			put([]byte{0x10}, leInt(10_0000_0000))
+			bal := map[util.Uint160]int64{}
+			tok := func(o util.Uint160, name string) {
+				put(append([]byte{0x21}, rip(name)...), ns(o.BytesBE(), name))
+				put(append(append([]byte{0x02}, o.BytesBE()...), rip(name)...), []byte(name))
+				bal[o]++
+			}
+			for _, tl := range []struct {
+				n string
+				o util.Uint160
+			}{{"com", t1}, {"org", t2}} {
+				put(append([]byte{0x20}, tl.n...), leInt(0))
+				if owned {
+					tok(tl.o, tl.n)
+				} else {
+					put(append([]byte{0x21}, rip(tl.n)...), ns(nil, tl.n))
+				}
+				put(append(append(append([]byte{0x22}, rip(tl.n)...), rip(tl.n)...), rtSOA, 0), rec(tl.n, rtSOA, tl.n+" e@x.y 1 2 3 4 5", 0))
+			}
+			tok(t1, "aa.com")
+			tok(u, "zz.org")
+			tok(u, "mm.com")
+			for _, n := range []string{"aa.com", "zz.org", "mm.com"} {
+				put(append(append(append([]byte{0x22}, rip(n)...), rip(n)...), rtSOA, 0), rec(n, rtSOA, n+" e@x.y 1 2 3 4 5", 0))
+			}
+			for o, b := range bal {
+				put(append([]byte{0x01}, o.BytesBE()...), leInt(b))
+			}
+			ex = append(ex, upExpect{method: "totalSupply", want: "i2"},
+				upExpect{method: "balanceOf", args: []any{t1}, want: "i1", note: "TLD owner who also owns aa.com"},
+				upExpect{method: "balanceOf", args: []any{t2}, want: "i0", note: "owner of a TLD only"},
+				upExpect{method: "balanceOf", args: []any{u}, want: "i2", note: "owner of two names"},
+				upExpect{method: "tokensOf", args: []any{t1}, want: fmt.Sprint([]any{NXs("aa.com")}), note: "TLD owner who also owns aa.com"},
+				upExpect{method: "tokensOf", args: []any{t2}, want: fmt.Sprint([]any{}), note: "owner of a TLD only"},
+				upExpect{method: "tokensOf", args: []any{u}, set: true, want: fmt.Sprint(sortedStrs(fmt.Sprint(NXs("zz.org")), fmt.Sprint(NXs("mm.com")))), note: "owner of two names"},
+				upExpect{method: "ownerOf", args: []any{[]byte("aa.com")}, want: fmt.Sprint(NX(t1.BytesBE())), note: "aa.com"},
+				upExpect{method: "ownerOf", args: []any{[]byte("zz.org")}, want: fmt.Sprint(NX(u.BytesBE())), note: "zz.org"},
+				upExpect{method: "ownerOf", args: []any{[]byte("mm.com")}, want: fmt.Sprint(NX(u.BytesBE())), note: "mm.com"},
+				upExpect{method: "roots", set: true, want: fmt.Sprint(sortedStrs(fmt.Sprint(NXs("com")), fmt.Sprint(NXs("org"))))},
+				upExpect{method: "isAvailable", args: []any{"aa.com"}, want: "i0", note: "aa.com"},
+				upExpect{method: "isAvailable", args: []any{"bb.org"}, want: "i1", note: "bb.org"})
+			break
 		}
 		put([]byte{0x00}, leInt(1))
 		put([]byte{0x10}, leInt(10_0000_0000))
